@@ -78,6 +78,7 @@ class Contract:
         self.variants = None
         self.name = qualname
         self.opts = {}
+        self.raise_fields = {}  # exc name -> callable(S) -> dict of fields set on the raised exception (summaries)
         self.apply_hook = None  # callable(S): ghost effects of a call when the contract is used as a summary
         self.exit_hook = None  # callable(S, outcome): extra obligations at unit exit (ghost ledgers, Inv)
         self.ok_exceptions = None  # exception class names allowed to escape without a raises clause
@@ -454,6 +455,8 @@ def apply_contract(it, c, vars):
     if name == "NoAvailablePort":
         ctx.event("exhausted")
     exc = it.make_exc(_find_exc(it, name))
+    if name in c.raise_fields:
+        exc.fields.update(c.raise_fields[name](S))
     S.exc = exc
     for cl in c.raises[name] + c.any_exit:
         ctx.assume(_b(sp.formula(cl.expr, S)))
